@@ -130,7 +130,9 @@ def expected_text(tla_text):
 class HistDriver:
     """real client connection; callbacks registered through conn.addMatch"""
 
-    def __init__(self, msgs, pool_by_key):
+    def __init__(self, msgs, pool_by_key, shared=False):
+        self.shared = shared      # one callable registered under every rule: only the number of calls is observable
+        self.calls = 0
         fakes.install_clock()
         self.conn, self.t, _ = fakes.ready_client()
         self.msgs = msgs
@@ -150,6 +152,7 @@ class HistDriver:
 
     def apply(self, name, args):
         self.last = {}
+        self.calls = 0
         if name == 'Add':
             r = args[0]
             mid = self.n
@@ -165,7 +168,7 @@ class HistDriver:
                 if self.raising:
                     raise RuntimeError('callback %d raises' % mid)
             a, p = rule_args(r)
-            d = self.conn.addMatch(cb, arg=a, arg_path=p, **rule_kwargs(r))
+            d = self.conn.addMatch(self.shared_cb if self.shared else cb, arg=a, arg_path=p, **rule_kwargs(r))
             got = []
             d.addCallback(got.append)
             call = self._reply()
@@ -194,7 +197,14 @@ class HistDriver:
         else:
             raise ValueError(name)
 
+    def shared_cb(self, m):
+        self.calls += 1
+        if self.raising:
+            raise RuntimeError('shared callback raises')
+
     def project(self):
+        if self.shared:
+            return {'ninvoked': self.calls}
         inv = set()
         for mid, c in self.last.items():
             inv.add(mid if c == 1 else 1000 + mid)        # invoked more than once -> out of range
@@ -329,6 +339,15 @@ def run(tier, seed):
         paths = rng.sample(paths, 3000)
     core.replay_paths(chk, g, paths, mk, 'hist-edges', 'c12', {})
     core.replay_paths(chk, g, list(core.random_walks(g, 3000 if thorough else 500, 10, rng)), mk, 'hist-walks', 'c12', {})
+
+    # the same callable (a bound method: two registrations compare equal) under every rule: it runs once per matching rule
+    def mk_shared(acts):
+        d = HistDriver(None, None, shared=True)
+        d.raw = hraw
+        return d
+    sp = [p for p in paths if not any(lab[0] == 'RouteRemoving' for lab in p.labs)]
+    core.replay_paths(chk, g, sp[:1500 if not thorough else None], mk_shared, 'hist-shared-callable', 'c12', {'shared': True},
+                      state_map=lambda st: {'ninvoked': len(st['invoked'])})
     # ---- code -> spec: random rules over a larger value space (recorded match sets judged by TLC)
     traces = []
     descr = []
